@@ -30,16 +30,17 @@ const (
 
 // Interp is one worker: SSA program (shared, read-only), own heap, own solver.
 type Interp struct {
-	prog    *ssa.Program
-	cfg     *Config
-	sizes   types.Sizes
-	ctx     *smt.Ctx
-	solver  *smt.Solver
-	globals map[*ssa.Global]*value
-	pkgInit map[*ssa.Package]int // 0 not started, 1 running, 2 done
-	undo    []undoRec
-	logging bool
-	initing int
+	pkgBuilt map[*ssa.Package]bool // packages this interpreter has seen completely built
+	prog     *ssa.Program
+	cfg      *Config
+	sizes    types.Sizes
+	ctx      *smt.Ctx
+	solver   *smt.Solver
+	globals  map[*ssa.Global]*value
+	pkgInit  map[*ssa.Package]int // 0 not started, 1 running, 2 done
+	undo     []undoRec
+	logging  bool
+	initing  int
 
 	path *pathState
 	ex   *Explorer
@@ -449,11 +450,16 @@ func callSSA(i *Interp, caller *frame, callpos token.Pos, fn *ssa.Function, args
 			return ext(fr, args)
 		}
 	}
-	if fn.Blocks == nil {
-		// try to build lazily (dependency packages)
-		if fn.Pkg != nil {
-			i.ex.buildPkg(fn.Pkg)
+	// dependency packages are built lazily; another worker may be in the middle of building this one
+	// (fn.Blocks is then non-nil but unfinished), so always pass through the build lock once per package
+	if fn.Pkg != nil && !i.pkgBuilt[fn.Pkg] {
+		i.ex.buildPkg(fn.Pkg)
+		if i.pkgBuilt == nil {
+			i.pkgBuilt = map[*ssa.Package]bool{}
 		}
+		i.pkgBuilt[fn.Pkg] = true
+	}
+	if fn.Blocks == nil {
 		if fn.Blocks == nil {
 			if i.initing > 0 {
 				return poisonFor(fn, "no code for function: "+name)
@@ -622,6 +628,13 @@ func (i *Interp) ensureInit(pkg *ssa.Package) {
 		defer func() {
 			if r := recover(); r != nil {
 				i.note(fmt.Sprintf("init of %s stopped early: %v", pkg.Pkg.Path(), briefPanic(r)))
+				switch r.(type) {
+				case pathAbort, targetPanic:
+				default:
+					// a raw Go panic of the interpreter itself: this worker's view of the package is
+					// unreliable, nothing found with it may be reported as a verdict
+					i.ex.initFault(fmt.Sprintf("init of %s: %v", pkg.Pkg.Path(), briefPanic(r)))
+				}
 			}
 		}()
 		callSSA(i, nil, token.NoPos, initFn, nil, nil)
